@@ -238,6 +238,16 @@ func c15History(c Case, res *Result) {
 					var ct *twig.CompiledTemplate
 					if ct, err = twig.CompileTemplate(t); err == nil {
 						ct.Name = name
+						// a compiled template carries the times of its making: they may lie long before (a file
+						// compiled ahead of time) or after what the engine holds; the registration counts, not the stamps
+						switch geti("src") % 3 {
+						case 0:
+							ct.LastModified, ct.CompileTime = 1000, 1000
+							res.Hist["register:compiled-with-old-timestamps"]++
+						case 1:
+							ct.LastModified = ct.LastModified + 86400*365
+							res.Hist["register:compiled-with-future-timestamp"]++
+						}
 						var data []byte
 						if data, err = twig.SerializeCompiledTemplate(ct); err == nil {
 							err = eng.LoadFromCompiledData(data)
